@@ -213,13 +213,13 @@ def tlc(pid, name, module, cfg=None, workers=None, timeout=600, env=None, simula
     mi = re.search(r"Error: Invariant (\S+) is violated", out)
     ma = re.search(r"Error: Action property (\S+) is violated", out)
     mp = re.search(r"Error: Postcondition (\S+) .* is false", out)
-    mt = re.search(r"Error: Temporal properties were violated", out)
+    mt = re.search(r"Error: Temporal propert(?:ies were|y (\S+) was) violated", out)
     if mi:
         res["kind"], res["violated"] = "invariant", mi.group(1)
     elif ma:
         res["kind"], res["violated"] = "action_property", ma.group(1)
     elif mt:
-        res["kind"], res["violated"] = "temporal", "temporal"
+        res["kind"], res["violated"] = "temporal", (mt.group(1) or "temporal")
     elif mp:
         res["kind"], res["violated"] = "postcondition", mp.group(1)
     elif "Error: Deadlock reached" in out:
